@@ -288,7 +288,7 @@ def traj_split_record(b, traj, k, equal):
         n = len(pp)
         found = None
         prev_stop = ranges[-1][1] if ranges and ranges[-1][1] >= 0 else 0
-        for s in [prev_stop] + list(range(lo, len(src) - n + 1)):
+        for s in list(range(prev_stop, len(src) - n + 1)) + list(range(lo, prev_stop)):
             if 0 <= s <= len(src) - n and np.array_equal(src[s:s + n], pp):
                 found = s
                 break
